@@ -92,8 +92,13 @@ structure Ctx where
   /-- the method body: `none` = returned an error (or panicked): its layer is dropped -/
   body : String → String → List String → Led → Option Led
 
+/-- decimal digits to a number (structural, so that the kernel can evaluate it) -/
+def digitsVal : List Char → Nat → Nat
+  | [], acc => acc
+  | ch :: cs, acc => digitsVal cs (acc * 10 + (ch.toNat - 48))
+
 /-- `strconv.ParseUint` on a string that passed `isNumeric` -/
-def nonceOf (s : String) : Nat := s.toNat?.getD 0
+def nonceOf (s : String) : Nat := digitsVal s.toList 0
 
 /-- what every route does before anything is written: method lookup, disabled test,
     authentication, argument check. Error classes are the reply classes the harness observes. -/
@@ -195,7 +200,12 @@ def requestsOf : List Op → List Req
 /-! ### the token bodies (`token/transfer.go: TxTransfer` without a configured fee, the harness
     token's `TxEmit`, and their immediate twins) -/
 
-def amountOf (s : String) : Option Int := s.toInt?
+/-- `big.Int.SetString(s, 10)` on canonical decimal text: optional sign, at least one digit -/
+def amountOf (s : String) : Option Int :=
+  match s.toList with
+  | '-' :: ds => if ds ≠ [] ∧ ds.all Char.isDigit then some (-(digitsVal ds 0 : Int)) else none
+  | '+' :: ds => if ds ≠ [] ∧ ds.all Char.isDigit then some (digitsVal ds 0 : Int) else none
+  | ds => if ds ≠ [] ∧ ds.all Char.isDigit then some (digitsVal ds 0 : Int) else none
 
 def tokenBody (issuer : String) (fn sender : String) (margs : List String) (l : Led) : Option Led :=
   match fn, margs with
